@@ -561,6 +561,40 @@ def occurrences_replacements(path, needle, sentinel, limit=64):
     return res
 
 
+def guard_text(t, sentinels):
+    """Rewrite regex text so that '.', negated classes and \\W \\D \\S never match one of `sentinels`.
+    Returns None for text it does not understand (unterminated class, dangling backslash)."""
+    guard = "(?![%s])" % sentinels
+    out, i = [], 0
+    while i < len(t):
+        c = t[i]
+        if c == "\\":
+            if i + 1 >= len(t):
+                return None
+            e = t[i:i + 2]
+            out.append("(?:%s%s)" % (guard, e) if e[1] in "WDS" else e)
+            i += 2
+        elif c == ".":
+            out.append("(?:%s.)" % guard)
+            i += 1
+        elif c == "[":
+            j = i + 1
+            if t[j:j + 1] == "^":
+                j += 1
+            if t[j:j + 1] == "]":
+                j += 1
+            while j < len(t) and t[j] != "]":
+                j += 2 if t[j] == "\\" else 1
+            if j >= len(t):
+                return None
+            out.append("(?:%s%s)" % (guard, t[i:j + 1]))
+            i = j + 1
+        else:
+            out.append(c)
+            i += 1
+    return "".join(out)
+
+
 def oracle_section(sec, user, sane_path):
     """'first full match wins with literal substitution', one section.  Independent of re.escape and
     str.format: holes are filled by a sentinel character and compared by string equality.
@@ -603,8 +637,12 @@ def oracle_section(sec, user, sane_path):
     sent = {nm: SENTINELS[k] for k, nm in enumerate(names)}
     if any(s in user or s in sane_path or s in cp for s in SENTINELS):
         return None
-    # holes with an empty value vanish; others become their sentinel
-    pat = "".join(v if kind == "text" else ("" if values[v] == "" else sent[v]) for kind, v in pieces)
+    # holes with an empty value vanish; others become their sentinel; the rest of the pattern is rewritten so that
+    # it cannot consume a sentinel (a sentinel of the subject stands for a whole occurrence of the value)
+    guarded = [guard_text(v, "".join(SENTINELS)) if kind == "text" else None for kind, v in pieces]
+    if any(g is None and kind == "text" for g, (kind, _) in zip(guarded, pieces)):
+        return None
+    pat = "".join(g if kind == "text" else ("" if values[v] == "" else sent[v]) for g, (kind, v) in zip(guarded, pieces))
     try:
         cre = re.compile(pat)
     except Exception:
